@@ -279,13 +279,13 @@ def _target():
             if name not in memo:
                 try:
                     memo[name] = (real_version(name), None)
-                except md.PackageNotFoundError as exc:
-                    memo[name] = (None, exc)
+                except md.PackageNotFoundError:
+                    memo[name] = (None, True)
 
-            val, exc = memo[name]
+            val, missing = memo[name]
 
-            if exc is not None:
-                raise exc
+            if missing:
+                raise md.PackageNotFoundError(name)      # fresh instance: a cached one accumulates every caller's frames in its traceback
 
             return val
 
